@@ -594,23 +594,7 @@ func runCookieConstructorRule(c *Ctx, rule string) {
 			c.bad(rule, key, cs, "a cookie is sent that derives from "+why+": it does not carry the configured attributes", nil, 0)
 		}
 	}
-	// hand-written Set-Cookie headers
-	for _, fn := range c.P.ModFns {
-		for _, b := range fn.Blocks {
-			for _, in := range b.Instrs {
-				call, ok := in.(*ssa.Call)
-				if !ok || call.Call.StaticCallee() == nil || call.Call.StaticCallee().Signature.Recv() == nil || !isHTTPHeader(call.Call.StaticCallee().Signature.Recv().Type()) {
-					continue
-				}
-				if n := call.Call.StaticCallee().Name(); n != "Add" && n != "Set" {
-					continue
-				}
-				if k, ok := ConstString(call.Call.Args[1]); ok && strings.EqualFold(k, "Set-Cookie") {
-					c.bad(rule, "manual-set-cookie|"+fnKey(fn), in, "a Set-Cookie header is written by hand", nil, 0)
-				}
-			}
-		}
-	}
+	runQueuedCookiesUntouched(c, rule)
 
 }
 
@@ -872,4 +856,47 @@ func probeOnly(clone *ssa.Call) bool {
 		}
 	}
 	return true
+}
+
+// runQueuedCookiesUntouched (C18.R1, also C05.R11): the Set-Cookie lines of a response are written by http.SetCookie only
+// and, once queued, stay queued. No module code adds or sets a "Set-Cookie" header by hand (the cookie would not
+// carry the configured attributes), and none deletes or reassigns the header's value list (Header.Del, a map
+// assignment or delete on an http.Header under that key): the lines queued earlier on the response include the
+// expiry of the finished login's CSRF cookie, whose removal leaves nonce and PKCE verifier replayable in the browser.
+func runQueuedCookiesUntouched(c *Ctx, rule string) {
+	isSetCookieKey := func(v ssa.Value) bool {
+		k, ok := ConstString(unwrap0(v))
+		return ok && strings.EqualFold(k, "Set-Cookie")
+	}
+	n := 0
+	for _, fn := range c.P.ModFns {
+		for _, b := range fn.Blocks {
+			for _, in := range b.Instrs {
+				switch x := in.(type) {
+				case *ssa.Call:
+					if sc := x.Call.StaticCallee(); sc != nil && sc.Signature.Recv() != nil && isHTTPHeader(sc.Signature.Recv().Type()) {
+						n++
+						switch sc.Name() {
+						case "Add", "Set":
+							if len(x.Call.Args) > 1 && isSetCookieKey(x.Call.Args[1]) {
+								c.bad(rule, "manual-set-cookie|"+fnKey(fn), in, "a Set-Cookie header is written by hand", nil, 0)
+							}
+						case "Del":
+							if len(x.Call.Args) > 1 && isSetCookieKey(x.Call.Args[1]) {
+								c.bad(rule, "queued-cookies-dropped|"+fnKey(fn), in, "the Set-Cookie lines already queued on a response are deleted: cookie expiries queued earlier (the finished login's CSRF cookie) never reach the browser", nil, 0)
+							}
+						}
+					}
+					if bi, ok := x.Call.Value.(*ssa.Builtin); ok && bi.Name() == "delete" && len(x.Call.Args) == 2 && isHTTPHeader(x.Call.Args[0].Type()) && isSetCookieKey(x.Call.Args[1]) {
+						c.bad(rule, "queued-cookies-dropped|"+fnKey(fn), in, "the Set-Cookie lines already queued on a response are deleted: cookie expiries queued earlier (the finished login's CSRF cookie) never reach the browser", nil, 0)
+					}
+				case *ssa.MapUpdate:
+					if isHTTPHeader(x.Map.Type()) && isSetCookieKey(x.Key) {
+						c.bad(rule, "queued-cookies-dropped|"+fnKey(fn), in, "the Set-Cookie lines of a response are reassigned by hand: whatever the new list leaves out — the expiry of the finished login's CSRF cookie, queued by the callback before the session is saved — never reaches the browser, and nonce and PKCE verifier stay replayable there", nil, 0)
+					}
+				}
+			}
+		}
+	}
+	c.R.OK(rule, "set-cookie-lines|all", "-", sprintf("%d http.Header method call(s) in the module: no hand-written, deleted or reassigned Set-Cookie", n))
 }
